@@ -14,6 +14,13 @@ CLAIMED = {
             'clang 14 front end/CFG; production flags from CMake (-DNDEBUG); handle-internal state (p_component_private) assumed valid; '
             'function-pointer targets resolved from address-taken facts',
             'DESIGN.md section 5 C14'),
+    'C23': ('lockset dataflow (pairing, order, guarded-by with interprocedural entry locksets) + dominance/post-dominance (wait=>pop, push=>post) + control dependence + ring wrap-idiom recognition on EbSystemResourceManager.c',
+            'Decides the structural protocol clauses of the System Resource Manager on every path of its 30-odd functions: lock pairing, '
+            'queue->fifo lock order, guarded-by of ring buffers / fifo links / wrapper counters, push=>post, wait=>pop, quit-guarded pop, '
+            'FIFO direction and ring index arithmetic shape, release condition. These are necessary conditions of safe hand-out and wake-up '
+            'under every interleaving; liveness of the whole protocol and lost-wake-up freedom of the non-blocking get are not decided.',
+            'pthread semantics; callers classified single-threaded (init/dctor) by call-graph reachability are excluded from the entry-lockset intersection',
+            'DESIGN.md section 5 C23'),
 }
 
 NOT_APPLICABLE = {
@@ -55,7 +62,7 @@ def main():
         'hooks': {
             'guard': 'SVT_AV1_VERIF',
             'enable': 'no source hooks: the checkers read the unmodified tree (nothing is compiled with the guard)',
-            'baseline_off_cmd': 'cmake --build /repo/_build -j16 && ctest --test-dir /repo/_build -j8 --timeout 900',
+            'baseline_off_cmd': 'cmake --build /repo/_build --target SvtAv1ApiTests -j16 && ctest --test-dir /repo/_build -j8 --timeout 900',
             'source_commits': [],
             'add_only': True,
         },
@@ -80,7 +87,7 @@ def main():
 # properties whose rule module is not implemented yet (kept honest: listed as not claimed until the check exists)
 PENDING = {pid: 'static check designed (DESIGN.md section 5) but not yet implemented in this revision; not claimed'
            for pid in ['C02', 'C03', 'C04', 'C05', 'C06', 'C07', 'C09', 'C10', 'C12', 'C13', 'C15', 'C16', 'C17', 'C18', 'C20',
-                       'C21', 'C22', 'C23', 'C24', 'C25']}
+                       'C21', 'C22', 'C23', 'C24', 'C25'] if pid not in CLAIMED}
 
 if __name__ == '__main__':
     main()
